@@ -211,7 +211,7 @@ T_Cb == /\ IsEvent("cb")
                                                 /\ hst.cb[a][Len(hst.cb[a])][1] = "pb" /\ hst.cb[a][Len(hst.cb[a]) - 1][1] = "fe"
                                                 /\ ~act[a].pbseen)
                           /\ act' = [act EXCEPT ![a].pbseen = TRUE] /\ UNCHANGED <<hnd, cli, rsp, tmr, reg, now, hst, cur, yl>>
-                     ELSE /\ (IF act[a].pc # "failed" THEN TRUE ELSE G("cb.pb.failed" \o RstStartErr(a), FALSE))     \* the graceful epilogue on a failure path
+                     ELSE /\ (IF act[a].pc # "failed" THEN TRUE ELSE G("cb.pb.failed" \o RstStartErr(a) \o (IF act[a].jh # "none" THEN ".owning" ELSE ""), FALSE))     \* the graceful epilogue on a failure path
                           /\ (IF ~(act[a].pc = "idle" /\ act[a].mq # <<>>) THEN TRUE ELSE G("cb.pb.undrained." \o Head(act[a].mq).src \o (IF \E b \in Actor : act[b].pc = "failed" THEN ".fail" ELSE ""), FALSE))   \* stopping with accepted messages still queued
                           /\ G(IF HeldAsChild(a) THEN "cb.pb.child" ELSE "cb.pb",
                                (act[a].pc = "dequeued" /\ act[a].curp.k \in {"stop", "restart"}) \/ (act[a].pc = "idle" /\ act[a].mq = <<>> /\ ~ChanOpen(a)))
@@ -230,7 +230,7 @@ T_Cb == /\ IsEvent("cb")
                      /\ G("cb.pe", act[a].pc \in {"stopping", "rs_stopped"} /\ ScriptDone(a) /\ act[a].sdl < 0)
                      /\ RunLoop(a)
                 [] OTHER -> G("cb.name", FALSE)
-           /\ G("cb.inst", act'[a].inst = E.inst)
+           /\ G(IF act[a].jh # "none" THEN "cb.inst.owning" ELSE "cb.inst", act'[a].inst = E.inst)    \* (the value a join would hand out)
            /\ G("cb.inc", act'[a].inc = E.inc)
 
 T_HBegin == /\ IsEvent("h_begin")
